@@ -169,10 +169,12 @@ def dedup : List Nat → List Nat
 /-- collector.TokensValues of a bulk (without `_all_`): every distinct token in order of first appearance -/
 def bulkToks (bulk : List Doc) : List Nat := dedup (bulk.flatMap (·.toks))
 
-/-- the PutLIDsInQueue calls of one bulk in collector order: `_all_` first, then every token of the bulk as it
-arrived (`toks`), each with the LIDs of the documents that were kept -/
-def queueCalls (toks : List Nat) (docs : List Doc) (base : Nat) : List (Option Nat × List Nat) :=
-  (none, List.range' base docs.length) :: toks.map (fun t => (some t, lidsWith t docs base))
+/-- the PutLIDsInQueue calls of one bulk: every token of the bulk as it arrived (`toks`), each with the LIDs of the
+documents that were kept, and `_all_` - first in collector order (the code as first read, `allLast = false`: it is
+the first token of every document) or last (`allLast = true`: the repaired loop walks the tokens backwards) -/
+def queueCalls (allLast : Bool) (toks : List Nat) (docs : List Doc) (base : Nat) : List (Option Nat × List Nat) :=
+  if allLast then toks.reverse.map (fun t => (some t, lidsWith t docs base)) ++ [(none, List.range' base docs.length)]
+  else (none, List.range' base docs.length) :: toks.map (fun t => (some t, lidsWith t docs base))
 
 /-- evaluation of the query tree over the leaves that were read (consumed in order) -/
 def evalQ : Query → List (Nat × List Nat) → Nat → Bool × List (Nat × List Nat)
@@ -206,12 +208,24 @@ def putQueue (sh : Sh) (t : Option Nat) (ls : List Nat) : Sh :=
   | none => { sh with all := sh.all ++ ls }
   | some t => { sh with tok := fun u => if u = t then sh.tok u ++ ls else sh.tok u }
 
-def fetchOne (sh : Sh) (nblocks : Nat) (id : ID) : FetchRes :=
+/-- `GetDocPos` on the live positions, then `GetBlocksOffsets` on the provider's snapshot of `nblocks` entries;
+`live = true`: the repaired `GetBlocksOffsets` re-reads `DocBlocks` when the index is past the snapshot -/
+def fetchOne (live : Bool) (sh : Sh) (nblocks : Nat) (id : ID) : FetchRes :=
   match sh.pos.lookup id with
   | none => .notFound
-  | some (b, off) => if b < nblocks then .found b off else .panic
+  | some (b, off) => if b < nblocks || (live && b < sh.blocks) then .found b off else .panic
 
-def step (s : St) : Label → Option St
+/-- what the extractor reads off the code (`SV.Extracted.C07`): is `_all_` queued last, does the fetch index
+re-read `DocBlocks` -/
+structure Cfg where
+  allLast : Bool
+  live : Bool
+deriving DecidableEq, Repr
+
+/-- the code as first read -/
+def Cfg.asRead : Cfg := ⟨false, false⟩
+
+def step (c : Cfg) (s : St) : Label → Option St
   | .wNew i bulk =>
     if (s.ws i).pc = .idle then
       some { s with sh := { s.sh with submitted := s.sh.submitted ++ bulk },
@@ -242,7 +256,7 @@ def step (s : St) : Label → Option St
   | .wToks i =>
     let w := s.ws i
     if w.pc = .ids then
-      some { s with ws := setW s.ws i { w with pc := .queue, todo := queueCalls w.toks w.docs w.base } }
+      some { s with ws := setW s.ws i { w with pc := .queue, todo := queueCalls c.allLast w.toks w.docs w.base } }
     else none
   | .wQueue i =>
     let w := s.ws i
@@ -311,39 +325,52 @@ def step (s : St) : Label → Option St
   | .rFetch i id =>
     let r := s.rs i
     if r.pc = .blocks then
-      some { s with rs := setR s.rs i { r with fetched := r.fetched ++ [(id, fetchOne s.sh r.nblocks id)] } }
+      some { s with rs := setR s.rs i { r with fetched := r.fetched ++ [(id, fetchOne c.live s.sh r.nblocks id)] } }
     else none
   | .rClose i =>
     let r := s.rs i
     if r.pc = .blocks then some { s with rs := setR s.rs i { r with pc := .done } } else none
 
-def run : St → List Label → Option St
+def run (c : Cfg) : St → List Label → Option St
   | s, [] => some s
-  | s, l :: ls => match step s l with
-    | some s' => run s' ls
+  | s, l :: ls => match step c s l with
+    | some s' => run c s' ls
     | none => none
 
-def firstBad : St → List Label → Nat → Option Nat
+def firstBad (c : Cfg) : St → List Label → Nat → Option Nat
   | _, [], _ => none
-  | s, l :: ls, i => match step s l with
-    | some s' => firstBad s' ls (i + 1)
+  | s, l :: ls, i => match step c s l with
+    | some s' => firstBad c s' ls (i + 1)
     | none => some i
 
-def Reachable (s : St) : Prop := ∃ tr, run init tr = some s
+def Reachable (c : Cfg) (s : St) : Prop := ∃ tr, run c init tr = some s
 
-theorem reachable_induct (P : St → Prop) (h0 : P init)
-    (hstep : ∀ s l s', P s → step s l = some s' → P s') : ∀ s, Reachable s → P s := by
+theorem reachable_induct (c : Cfg) (P : St → Prop) (h0 : P init)
+    (hstep : ∀ s l s', P s → step c s l = some s' → P s') : ∀ s, Reachable c s → P s := by
   intro s ⟨tr, htr⟩
-  have : ∀ (tr : List Label) (a b : St), P a → run a tr = some b → P b := by
+  have : ∀ (tr : List Label) (a b : St), P a → run c a tr = some b → P b := by
     intro tr
     induction tr with
     | nil => intro a b ha h; simp [run] at h; exact h ▸ ha
     | cons l ls ih =>
       intro a b ha h
       simp only [run] at h
-      cases hs : step a l with
+      cases hs : step c a l with
       | none => simp [hs] at h
       | some a' => rw [hs] at h; exact ih a' b (hstep a l a' ha hs) h
   exact this tr init s h0 htr
+
+/-! ### witness schedules (used by the theorems of `Props/C07.lean` and replayed on the real code by the harness) -/
+
+/-- bulk 0 completely indexed; bulk 1 stopped right after its first `PutLIDsInQueue`; a reader for `NOT 5` -/
+def witnessNot : List Label :=
+  [.wNew 0 [⟨1, 1, [5]⟩], .wBlock 0, .wPos 0, .wIds 0, .wToks 0, .wQueue 0, .wQueue 0, .wStats 0, .wDone 0,
+   .wNew 1 [⟨1, 2, [5]⟩], .wBlock 1, .wPos 1, .wIds 1, .wToks 1, .wQueue 1,
+   .rNew 0 (.not (.tok 5)) 0 10, .rInfo 0, .rBlocks 0, .rMapping 0, .rMids 0, .rRids 0, .rLeaf 0, .rEval 0]
+
+/-- provider created, then bulk 1 appends its block and positions, then the fetch -/
+def witnessFetch : List Label :=
+  [.wNew 0 [⟨1, 1, [5]⟩], .wBlock 0, .wPos 0, .wIds 0, .wToks 0, .wQueue 0, .wQueue 0, .wStats 0, .wDone 0,
+   .rNew 0 (.tok 5) 0 10, .rInfo 0, .rBlocks 0, .wNew 1 [⟨1, 2, [5]⟩], .wBlock 1, .wPos 1, .rFetch 0 (1, 2)]
 
 end SV.ActiveConc
